@@ -619,6 +619,31 @@ def stage_subset_large(ctx):
                           dict(clause="original_dims", **m))
 
 
+def stage_subset_many_draws(ctx):
+    """distinctness under many draws: subset sizes around N^(2/3) of a camera-sized image are where a sampler that draws with
+    replacement and repairs collisions once (or not at all) most probably ends with a repeated pixel; dozens of seeds per size"""
+    import numpy as np
+    from holopy.core.metadata import make_subset_data, detector_grid
+    rng = ctx.subrng("subset-draws")
+    nx, ny = rng.choice([(512, 512), (480, 640)])
+    n = nx * ny
+    im = detector_grid((nx, ny), 0.1)
+    base = int(round(n ** (2.0 / 3.0)))
+    for npix in (base // 2, base, n // 50 - 1, n // 50 + 1, 2 * base, 4 * base):
+        for k in range(ctx.n(6, 30)):
+            seed = rng.randint(0, 99999)
+            _, sel = make_subset_data(im, pixels=npix, return_selection=True, seed=seed)
+            sel = np.asarray(sel).astype(int)
+            ctx.explored += 1
+            ctx.count("subset-draws:%d-of-%d" % (npix, n))
+            if len(np.unique(sel)) != npix or len(sel) != npix or sel.min() < 0 or sel.max() >= n:
+                ctx.violation("subset:distinct:large", "make_subset_data(%d x %d image, pixels=%d, seed=%d) did not draw %d distinct pixels "
+                              "(%d distinct)" % (nx, ny, npix, seed, npix, len(np.unique(sel))),
+                              dict(kind="subset-large", clause="distinct", shape=[nx, ny], pixels=npix, seed=seed))
+                return
+        ctx.nontriv(("subset-draws", nx, ny, npix))
+
+
 def stage_crop_meta(ctx):
     import numpy as np
     from holopy.core.metadata import flat, update_metadata, to_vector
@@ -1212,6 +1237,7 @@ def run(ctx):
     guarded(ctx, "calc", stage_calc, ctx)
     guarded(ctx, "subset", stage_subset, ctx)
     guarded(ctx, "subset-large", stage_subset_large, ctx)
+    guarded(ctx, "subset-draws", stage_subset_many_draws, ctx)
     guarded(ctx, "crop_meta", stage_crop_meta, ctx)
     guarded(ctx, "real", stage_real, ctx)
     guarded(ctx, "history", stage_history, ctx)
